@@ -19,6 +19,9 @@ GROUPS.append(G("fix_passloop", "harness/C02/h_as.c", "h_AssembleFile", enforce=
                 replace=["AssembleFile_InitPass", "AssembleFile_ExitPass", "ProcessFile", "AssembleFile_WrSummary"],
                 link=["asmdef.c"], loops=True, unwind=12, timeout=900, defs=["-DSTRINGSIZE=64"], functions=["AssembleFile"], object_bits=12,
                 note="the pass loop leaves only with ErrorCount != 0 or !Repass (loop exit condition under the loop contract as_passloop)"))
+GROUPS.append(G("fix_InitPass", "harness/C02/h_as.c", "h_InitPass", enforce=[], link=["asmdef.c"], unwind=260, timeout=900, defs=["-DSTRINGSIZE=64"], dfcc=False, drop_unused=True,
+                functions=["AssembleFile_InitPass"], object_bits=12, genbody=("(?!malloc$|calloc$|free$|realloc$|str[a-z]+$|mem[a-z]+$)[A-Za-z][A-Za-z0-9_]*", "nondet-return"),
+                note="every callee of another translation unit gets a generated body 'returns anything, writes nothing' (goto-instrument --generate-function-body); callees of other translation units (InitPass callbacks, symbol table resets, CPU selection) are not part of this obligation: only the per-pass state that as.c itself owns"))
 TRUSTED_BASE = ["symbol-table model in h_asmlabel.c = SymbolAdder's proved contract for one label", "stubs of h_asmpars_sym.c"]
 ASSUMPTIONS = ["every code generator uses the value the evaluator returned (C14's domain)", "termination of the pass loop is not decided"]
 NOT_COVERED = ["termination (liveness)", "code generators' use of symbol values", "EnterSymbol/EnterTree between LabelHandle and SymbolAdder"]
